@@ -472,6 +472,14 @@ func (c *Ctx) panicFreedom(rule string, fns []*ssa.Function) (nOb, nOK int) {
 					continue
 				}
 			}
+			if !ok {
+				// the argument is the successful result of a private function that proves it non-negative itself
+				if g, h := c.resultGuarantee(rule, site, arg); h != nil && g.nonNeg {
+					nOK++
+					R.OK(rule, fkey(caller)+":precondition:"+fkey(p.fn)+"("+p.param.Name()+">=0)", c.at(site), "call site establishes the callee's precondition "+p.param.Name()+" >= 0", "the argument is the result of "+fkey(h)+" on its err == nil edge; every return of "+fkey(h)+" that may carry a nil error proves result >= 0 (E-LIN in its own system)")
+					continue
+				}
+			}
 			if ok {
 				nOK++
 			}
@@ -637,4 +645,58 @@ func (c *Ctx) endUnit() map[*ssa.Function]bool {
 		}
 	}
 	return out
+}
+
+// intResult: what a private function of the scope guarantees about its int result #0 on every return whose error
+// result (#1) may be nil - proved in the function's own system: result >= 0, result <= the receiver's message limit.
+type intResult struct{ nonNeg, leMax bool }
+
+// resultGuarantee: arg at site is the int result of such a function, taken on the err == nil edge of that call, with
+// the same receiver as the call at site (the limit is a field of the receiver, stored only by NewReader).
+func (c *Ctx) resultGuarantee(rule string, site ssa.CallInstruction, arg ssa.Value) (intResult, *ssa.Function) {
+	ex, ok := core.StripConv(arg).(*ssa.Extract)
+	if !ok || ex.Index != 0 {
+		return intResult{}, nil
+	}
+	call, ok := ex.Tuple.(*ssa.Call)
+	if !ok {
+		return intResult{}, nil
+	}
+	h := core.StaticCallee(call)
+	if h == nil || !c.P.InScope(h) || h.Blocks == nil || h.Signature.Results().Len() != 2 || !core.IsErrorType(h.Signature.Results().At(1).Type()) {
+		return intResult{}, nil
+	}
+	if !anyDominates(nilEdges(resultOf(call, 1), true), site.Block()) {
+		return intResult{}, nil
+	}
+	sameRecv := h.Signature.Recv() != nil && len(call.Call.Args) > 0 && len(site.Common().Args) > 0 && call.Call.Args[0] == site.Common().Args[0]
+	sub := core.NewLin(c.P, h, c.modSets(), c.summaries(rule))
+	res := intResult{true, sameRecv}
+	n := 0
+	for _, r := range returns(h) {
+		if r.Block() == h.Recover || len(r.Results) != 2 {
+			continue
+		}
+		if c.Err().Classify(r.Results[1], r.Block()).NeverNil() {
+			continue
+		}
+		n++
+		t, off := sub.Expr(r.Results[0])
+		if !sub.Prove(r, core.Zero, t, off) {
+			res.nonNeg = false
+		}
+		le := false
+		for _, m := range maxTerms(sub) {
+			if sub.Prove(r, t, m, -off) {
+				le = true
+			}
+		}
+		if !le {
+			res.leMax = false
+		}
+	}
+	if n == 0 {
+		return intResult{}, nil
+	}
+	return res, h
 }
